@@ -295,3 +295,32 @@ def rule_plain_number_format(ctx, rid):
             else:
                 ctx.ok(rid, "%s@%d" % (f.short, bi), "plain placeholders")
     ctx.floor(rid, "format_templates", n, 20)
+
+
+def rule_line_writer_verbatim(ctx, rid):
+    """the function that puts a formatted statement on the output writes it as formatted"""
+    from analysis.mir import Body, callee_name
+    F = ctx.F
+    ctx.rule(rid, "the writer's line-output routine (it receives fmt::Arguments and writes them) emits the text as formatted, with indentation only: it does not measure, split, wrap, trim or rewrite it - a quoted string or a glued token that is re-broken no longer reads back as written")
+    n = 0
+    EDIT = re.compile(r"alloc::fmt::format$|std::fmt::format$|str::<impl str>::\w+$|String::(push|push_str|insert\w*|remove|truncate|pop|drain|replace_range|split_off|retain)$|slice::<impl \[T\]>::(split\w*|chunks\w*|windows|join|concat)$|str::traits::.*::index$|ToString>?::to_string$")
+    for f in F.fns.values():
+        if not f.id.startswith("lef21::write::") or not f.body or f.kind == "Closure":
+            continue
+        if not any(re.search(r"fmt::Arguments<", i["s"]) for i in f.inputs):
+            continue
+        n += 1
+        bodies = [f] + [c for c in F.fns.values() if c.kind == "Closure" and c.id.startswith(f.id + "::{closure")]
+        hits = []
+        for g in bodies:
+            b = Body(g)
+            for bi, t in b.calls():
+                nm = callee_name(t) or ""
+                if EDIT.search(nm):
+                    hits.append((b.site(bi), nm.split("::")[-1]))
+        key = "%s/verbatim" % f.short
+        if hits:
+            ctx.violation(rid, key, "%s works on the formatted text (%s) before writing it: statements are re-broken or altered on the way out, and text inside quotes (PROPERTY strings, BEGINEXT blocks) does not read back as written" % (f.short, ", ".join(sorted({h[1] for h in hits}))), hits[0][0], key)
+        else:
+            ctx.ok(rid, key, "written as formatted")
+    ctx.floor(rid, "line_output_routines", n, 1)
